@@ -6,3 +6,4 @@ from . import c_base_server  # noqa
 from . import c_socket  # noqa
 from . import c_server  # noqa
 from . import c_middleware  # noqa
+from . import c_client  # noqa
